@@ -108,8 +108,9 @@ Print Assumptions prom_select_exact.
 (* End to end (both statements answered by the reference interpreter, then labelsGetter, ReshuffleSeries and the
    final sort): Select returns each matching series that has a sample in the range exactly once, under its own
    label set, with exactly its in-range samples in ascending time order. Extra hypotheses: a series with a sample
-   in the range is announced between the date bounds of the labels request (C04's property), and distinct stored
-   series print distinct label strings (ReshuffleSeries' key). *)
+   in the range is announced between the date bounds of the labels request (C04's property), and stored series with
+   one label set carry one fingerprint (the fingerprint is a hash of the labels; ReshuffleSeries keys by the label
+   list since fix 3acbc45, no longer by the ambiguous text "n=v n=v"). *)
 Theorem prom_select_exact_series : forall (re_match re_full : string -> string -> bool),
   (forall v p, re_match v (anchor p) = re_full v p) ->
   forall cluster dbname h ms db, use_raw_data h = true -> h_step h = 0 ->
@@ -117,7 +118,7 @@ Theorem prom_select_exact_series : forall (re_match re_full : string -> string -
     (forall sm, List.In sm (d_samples db) -> window_ok h sm = true ->
        exists s, List.In s (d_series db) /\ t_fp s = sm_fp sm /\ day_from h <= t_date s /\ t_date s <= day_to h) ->
     (forall s1 s2, List.In s1 (d_series db) -> List.In s2 (d_series db) ->
-       label_str (sort_labels (sort_labels (t_labels s1))) = label_str (sort_labels (sort_labels (t_labels s2))) -> t_fp s1 = t_fp s2) ->
+       sort_labels (sort_labels (t_labels s1)) = sort_labels (sort_labels (t_labels s2)) -> t_fp s1 = t_fp s2) ->
     exists rows out, prom_query_rows re_match re_full cluster dbname h ms db = Some rows /\
       prom_select re_match re_full cluster dbname h ms db = Some out /\
       NoDup (map o_fp out) /\
